@@ -1329,8 +1329,15 @@ fn rewrite_string_lit(context: &RewriteContext<'_>, span: Span, shape: Shape) ->
         }
     }
 
-    // Remove the quote characters.
-    let str_lit = &string_lit[1..string_lit.len() - 1];
+    // Remove the quote characters. A literal with a suffix (`"abc"suffix` is only rejected after
+    // parsing) does not end with its closing quote: leave it as it is.
+    let Some(str_lit) = string_lit
+        .strip_prefix('"')
+        .and_then(|s| s.strip_suffix('"'))
+    else {
+        return wrap_str(string_lit.to_owned(), context.config.max_width(), shape)
+            .max_width_error(shape.width, span);
+    };
 
     rewrite_string(
         str_lit,
